@@ -1,0 +1,35 @@
+//go:build verif
+
+// Type contracts of the plugin handler function types, checked by /verif/govc
+// (comment-only file). Every function converted to one of these types must be
+// declared `implements` it and is verified against these clauses; calls through a
+// value of the type (the dispatch loops of the server) rely on them.
+
+package handler
+
+// Ghost call log: one entry per handler invocation.
+//@ ghost var hlog_n int
+//@ ghost var hlog_fn Array[int]Func
+//@ ghost var hlog_req4 Array[int]Loc
+//@ ghost var hlog_in4 Array[int]Loc
+//@ ghost var hlog_out4 Array[int]Loc
+//@ ghost var hlog_stop Array[int]bool
+
+//@ type Handler4
+//@   requires valid4(req) && valid4(resp) && req != resp
+//@   modifies everything
+//@   ensures[C13:logged] hlog_n == old(hlog_n) + 1 && hlog_fn == upd(old(hlog_fn), old(hlog_n), self) && \
+//@       hlog_req4 == upd(old(hlog_req4), old(hlog_n), req) && hlog_in4 == upd(old(hlog_in4), old(hlog_n), resp) && \
+//@       hlog_out4 == upd(old(hlog_out4), old(hlog_n), ret0) && hlog_stop == upd(old(hlog_stop), old(hlog_n), ret1)
+//@   ensures[C13:nil-only-with-stop] ret0 == nil ==> ret1
+//@   ensures ret0 == nil || ret0 == resp
+//@   ensures[C01:sends-nothing] sent == old(sent)
+//@   ensures valid4(req) && (ret0 != nil ==> valid4(ret0))
+//@   ensures[C11,C15:request-untouched] *req == old(*req) && unchanged(req.GatewayIPAddr) && unchanged(req.ClientIPAddr) && unchanged(req.ClientHWAddr)
+//@   ensures[C11:request-options-untouched] forall k uint8: (has(req.Options, k) <==> old(has(req.Options, k))) && req.Options[k] == old(req.Options[k])
+//@   ensures[C11:reply-header-untouched] ret0 != nil ==> (ret0.OpCode == old(resp.OpCode) && ret0.TransactionID == old(resp.TransactionID) && \
+//@       ret0.HWType == old(resp.HWType) && ret0.ClientHWAddr == old(resp.ClientHWAddr) && ret0.Flags == old(resp.Flags) && \
+//@       ret0.GatewayIPAddr == old(resp.GatewayIPAddr))
+//@   ensures[C11:echoed-options-untouched] ret0 != nil ==> ((has(ret0.Options, 82) <==> old(has(resp.Options, 82))) && ret0.Options[82] == old(resp.Options[82]) && \
+//@       (has(ret0.Options, 61) <==> old(has(resp.Options, 61))) && ret0.Options[61] == old(resp.Options[61]))
+//@   ensures[C11:reply-type-untouched] ret0 != nil ==> mtof(ret0.Options) == old(mtof(resp.Options))
